@@ -73,6 +73,9 @@ def main():
             meta = json.load(open(meta_p))
             if meta.get("retired"):
                 continue
+            only = os.environ.get("SWEEP_ONLY")        # comma separated name prefixes, e.g. sub7-,sub8-
+            if only and not name.startswith(tuple(only.split(","))):
+                continue
             props = a.props.split(",") if a.props else ([meta["breaks"]] if a.target_only else meta["properties"])
             tag = os.environ.get("SWEEP_TAG")
             key0 = "final_target_check" if a.target_only else "final_check"
